@@ -43,8 +43,10 @@ META = {
                   'Corpus obeys the README rule that the instance handed to Struct() has the receiver kind of the method (a value method '
                   'mocked through a pointer instance only patches the (*T).m wrapper). Instantiations of EQUAL GC shape share one body, so '
                   'mocking one mocks the other (the property only excludes different shapes). Known gaps recorded as findings: unexported '
-                  'methods of generic instantiations cannot be mocked by name (C06-K1; histories that patch a generic wrapper by name and then mock the same method via Method() are checked by the oracle only, the model does not cover a patched wrapper). Outside the statement but observed: a callback on a generic '
-                  'method receives the dictionary pointer as its first ordinary parameter (receiver still correct). Build uses -gcflags=all=-l.',
+                  'methods of generic instantiations cannot be mocked by name (C06-K1; histories that patch a generic wrapper by name and then mock the same method via Method() are checked by the oracle only, the model does not cover a patched wrapper). Since fix 79126f8 the callback of a generic method is called through an '
+                  'adapter that drops the dictionary word: receiver AND arguments are checked exactly for generic instances too (register, stack-passed, '
+                  'variadic and float parameters; big by-value receivers need repair F27). Origin(&placeholder) is exercised for ordinary types only '
+                  '(a placeholder for a shape body would be entered without dictionary). Build uses -gcflags=all=-l.',
 }
 
 BASE = 'github.com/tencent/goom/internal/zzverif/c06'
@@ -67,7 +69,9 @@ LAYOUTS = {
 }
 PARAMS = {0: ('', ''), 1: ('x int64', 'w.WantX'), 2: ('x int64, s string', 'w.WantX, w.WantS'),
           3: ('a [4]int64, b [4]int64', 'w.WantArr, w.WantArr2'),   # kind 3: stack-passed arguments
-          4: ('c [16]int64', 'w.WantArr16')}                        # kind 4: big enough for runtime.duffcopy in a wrapper
+          4: ('c [16]int64', 'w.WantArr16'),                        # kind 4: big enough for runtime.duffcopy in a wrapper
+          5: ('xs ...int64', 'w.WantX, w.WantX + 1'),               # kind 5: variadic
+          6: ('f float64, x int64', 'w.WantF, w.WantX')}            # kind 6: a float register parameter in front of an integer one
 NAMEPOOL = ['Get', 'GetX', 'GetXY', 'get', 'getX', 'Set', 'Se', 'set', 'G', 'g', 'Value', 'Val', 'value', 'M', 'm', 'mm', 'Getx', 'gET']
 UNEXP_TYPES = ['t', 't2', 'tt', 'conn', 'conn2', 'connX', 'c', 'impl', 'implA', 'node', 'nodeList', 'n', 'state', 'st', 'e0', 'eE']
 GEN_ARGS = [  # Go type argument, reflect spelling, shape
@@ -139,7 +143,7 @@ def gen_corpus(tier, rng):
     gens = []
     for g in range(n_gen):
         gm = [('Get', True, 0), ('GetX', True, 1), ('Val', False, 0), ('get', True, 0), ('Value', False, 2 if g % 2 else 1),
-              ('Big', True, 3), ('BigV', False, 3)]      # stack-passed arguments: the CALL sits far into the instantiation wrapper
+              ('Big', True, 3), ('BigV', False, 3), ('Var', True, 5), ('Flt', g % 2 == 0, 6)]      # stack-passed arguments: the CALL sits far into the instantiation wrapper
         gens.append((f'G{g}', gm, ''))
         for a in range(n_inst):
             go, refl, shape = GEN_ARGS[(a + g) % len(GEN_ARGS)] if tier != 'quick' else GEN_ARGS[a % len(GEN_ARGS)]
@@ -289,8 +293,9 @@ def emit_sources(types, gens, entries, outdir):
 def body_tail(np_, helper=False):
     """non-leaf variant: the multiplication goes through the (never inlined) helper w.Id, so the body contains a CALL"""
     if helper:
-        return [' + w.Id(0)', ' + w.Id(x*31)', ' + w.Id(x*31) + int64(len(s))', ' + w.Id(a[0]*31) + b[3]', ' + w.Id(c[3]*31)'][np_]
-    return ['', ' + x*31', ' + x*31 + int64(len(s))', ' + a[0]*31 + b[3]', ' + c[3]*31'][np_]
+        return [' + w.Id(0)', ' + w.Id(x*31)', ' + w.Id(x*31) + int64(len(s))', ' + w.Id(a[0]*31) + b[3]', ' + w.Id(c[3]*31)',
+                ' + w.Id(int64(len(xs))*31) + xs[0]', ' + w.Id(x*31) + int64(f*2)'][np_]
+    return ['', ' + x*31', ' + x*31 + int64(len(s))', ' + a[0]*31 + b[3]', ' + c[3]*31', ' + int64(len(xs))*31 + xs[0]', ' + x*31 + int64(f*2)'][np_]
 
 
 def inst_literal(e, a):
@@ -366,7 +371,8 @@ def mock_func(e):
     cbE<id> (typed callback number k), standInE<id> (typed stand-in for As)."""
     ps = PARAMS[e['np']][0]
     pl = (', ' + ps) if ps else ''
-    argok = ['true', 'x == w.WantX', 'x == w.WantX && s == w.WantS', 'a == w.WantArr && b == w.WantArr2', 'c == w.WantArr16'][e['np']]
+    argok = ['true', 'x == w.WantX', 'x == w.WantX && s == w.WantS', 'a == w.WantArr && b == w.WantArr2', 'c == w.WantArr16',
+             'len(xs) == 2 && xs[0] == w.WantX && xs[1] == w.WantX+1', 'f == w.WantF && x == w.WantX'][e['np']]
     lay = e['layout']
     i = e['id']
     visible = e['pk'] == 'pa' or e['exported_type']
@@ -593,7 +599,7 @@ def gen_hists(tier, rng, entries):
             ('relookup', [lk, f'T~0~{val(10)}', f'L~1~{step_tok(via, e)}', 'A~1', f'L~2~{step_tok(via, e)}', f'T~2~{val(11)}']),
             ('reset-rearm-apply', [lk, 'A~0', 'R', f'S~0~{val(12)}~{val(13)}', 'A~0']),
         ]
-        if via == 'SM' and e['np'] in (1, 2) and not e['generic']:
+        if via == 'SM' and e['np'] in (1, 2):
             P += [
                 ('returns-when', [lk, f'SW~0~{val(20)}~{val(21)}~1~{val(22)}']),
                 ('returns-when-nomatch', [lk, f'SW~0~{val(23)}~{val(24)}~0~{val(25)}']),
@@ -633,7 +639,7 @@ def gen_hists(tier, rng, entries):
                 steps.append(f'C~{h}'); has_default[h] = False
             elif r == 6:
                 steps.append('R'); has_default = [False] * len(picks)
-            elif via == 'SM' and e['np'] in (1, 2) and not e['generic']:
+            elif via == 'SM' and e['np'] in (1, 2):
                 if r == 7:
                     steps.append(f'W~{h}~1~{val(n)}')
                 elif r == 8 and has_default[h]:
@@ -1298,8 +1304,8 @@ def run(tier):
                          'unexported_methods': sum(1 for e in entries if not e['m'][0].isupper()),
                          'unexported_types': len({(e['pk'], e['T']) for e in entries if not e['exported_type']})},
         'explanation': 'observed only: linker naming, reflect method table, wrappers/shape bodies/devirtualisation, register preservation; '
-                       'equal-shape instantiations share a body (mocking one mocks the other); callbacks on generic methods get the dictionary '
-                       f'as first ordinary parameter ({notes.get("dictshift", 0)} observations)',
+                       'equal-shape instantiations share a body (mocking one mocks the other); '
+                       f'callbacks whose arguments differed from the call: {notes.get("dictshift", 0) + notes.get("args-differ", 0)}',
         'samples': [{'steps': hists[i], 'impl': impl[i], 'model': model[i] if model else None}
                     for i in (0, len(hists) // 3, len(hists) // 2, len(hists) - 1)],
     }
